@@ -134,14 +134,14 @@ static int rt_f(uint32_t bits, char tb, char *textout) {
     r = flatcc_json_parser_float(&ctx, b, b + k + 1, &g); if (ctx.error || r != b + k || f2u(g) != bits) bad |= 2;
     free(b); return bad;
 }
-static int rt_d_one_ulp;   /* set by rt_d: every wrong result was a complete parse that is exactly one ulp away */
+static int rt_d_one_ulp;   /* set by rt_d: every wrong result was a complete parse to a non-zero value exactly one ulp away */
 static int rt_d(uint64_t bits, char tb, char *textout) {
     char *b = (char *)malloc(40); int k, bad = 0; double g = 1.0; const char *r; flatcc_json_parser_t ctx;
     memset(b, 0, 40); k = print_double(u2d(bits), b); rt_d_one_ulp = 1;
     if (textout) { memcpy(textout, b, (size_t)k + 1); }
-    r = parse_double(b, (size_t)k, &g); if (r != b + k || d2u(g) != bits) { bad |= 1; if (r != b + k || (d2u(g) + 1 != bits && d2u(g) != bits + 1)) rt_d_one_ulp = 0; }
+    r = parse_double(b, (size_t)k, &g); if (r != b + k || d2u(g) != bits) { bad |= 1; if (r != b + k || (d2u(g) + 1 != bits && d2u(g) != bits + 1) || !(d2u(g) << 1)) rt_d_one_ulp = 0; }
     b[k] = tb; g = 1.0; ctx_init(&ctx, b);
-    r = flatcc_json_parser_double(&ctx, b, b + k + 1, &g); if (ctx.error || r != b + k || d2u(g) != bits) { bad |= 2; if (ctx.error || r != b + k || (d2u(g) + 1 != bits && d2u(g) != bits + 1)) rt_d_one_ulp = 0; }
+    r = flatcc_json_parser_double(&ctx, b, b + k + 1, &g); if (ctx.error || r != b + k || d2u(g) != bits) { bad |= 2; if (ctx.error || r != b + k || (d2u(g) + 1 != bits && d2u(g) != bits + 1) || !(d2u(g) << 1)) rt_d_one_ulp = 0; }
     free(b); return bad;
 }
 static int finite32(uint32_t b) { return (b & 0x7f800000u) != 0x7f800000u; }
